@@ -6,7 +6,7 @@ over the decisions taken on *every* path through the site.
 """
 import re
 
-from .interp import Interp, Policy, Sym, Closure, show, App, Const
+from .interp import Interp, Policy, Sym, Closure, show, App, Const, Variant
 
 
 
@@ -265,7 +265,78 @@ def g_char_boundary_range(fb, body, site):
     return False, "site not found"
 
 
+def g_str_index(fb, body, site):
+    """&text[a..b]: if an end point is a COUNT OF CHARACTERS (chars().take_while(p).count()), every counted character must be
+    one byte long, i.e. the predicate only accepts ASCII characters (is_ascii_* or equality with an ASCII literal).  Other end
+    points (byte offsets from char_indices, lengths of matched text, next_char_boundary) are covered by C07 R07.6."""
+    from .interp import Closure
+    from . import rel as _rel
+    pts, rec = paths_through(fb, body, site)
+    if not rec:
+        return False, "function shape not recognised"
+    for p, e in pts:
+        idx = _rel.canon(e[2][1]) if len(e[2]) > 1 else None
+        for s in ([] if idx is None else list(__import__("analysis.dispatch", fromlist=["subterms"]).subterms(idx))):
+            if isinstance(s, App) and s.fn == "std::iter::Iterator::count" and s.args:
+                src = _rel.canon(s.args[0])
+                if not (isinstance(src, App) and src.fn in ("std::iter::Iterator::take_while", "std::iter::Iterator::filter") and "::chars(" in _rel.cstr(src.args[0]) and isinstance(src.args[1], Closure)):
+                    return False, "a character count of unknown origin is used as a byte offset: %s" % _rel.cstr(s)[:100]
+                cb = fb.bodies.get(src.args[1].path)
+                qs = [q for q in Interp(fb, _P()).run(cb, [src.args[1], Sym("c")]) if q.status != "unreachable"] if cb else []
+                if not qs or any(q.status != "return" for q in qs):
+                    return False, "predicate of the counted characters not recognised"
+                for q in qs:
+                    # every way to return true must have established that c is ASCII
+                    r = _rel.canon(q.result)
+                    may_true = not (isinstance(r, Const) and r.bits == 0)
+                    if not may_true:
+                        continue
+                    ascii_ok = False
+                    terms = [d[1] for d in q.decisions if d[2] is True] + ([r] if not isinstance(r, Const) else [])
+                    for tt in terms:
+                        c_ = _rel.canon(tt)
+                        sc = _rel.cstr(c_)
+                        if re.search(r"<impl char>::is_ascii\w*\((deref\()?c\)?\)", sc):
+                            ascii_ok = True
+                        if isinstance(c_, App) and c_.fn == "binop:Eq" and any(isinstance(x, Const) and x.ty == "char" and x.bits is not None and x.bits < 128 for x in c_.args):
+                            ascii_ok = True
+                    if not ascii_ok:
+                        return False, "characters are counted by a predicate that also accepts non-ASCII characters (%s), and the count is used as a byte offset into the text" % _rel.cstr(r)[:80]
+    return True, "character counts used as byte offsets only count ASCII characters"
+
+
+def g_new_total(fb, body, site):
+    """unwrap of DeepEx::new(..): the constructor returns Err only when #nodes != #operators + 1 (which the call sites rule
+    out by construction); any other Err path turns these unwraps into panics."""
+    from . import rel as _rel
+    nb = [b for p_, b in fb.bodies.items() if p_.endswith("DeepEx::<'a, T, OF, LM>::new") and b["kind"] == "AssocFn"]
+    if len(nb) != 1:
+        return False, "DeepEx::new not found"
+
+    class PN(Policy):
+        loop_mode = "widen"
+        max_depth = 2
+    ps = [p for p in Interp(fb, PN()).run(nb[0], [Sym("nodes"), Sym("bin_ops"), Sym("unary_op")]) if p.status != "unreachable"]
+    n_err = 0
+    for p in ps:
+        if p.status == "return" and isinstance(p.result, Variant) and p.result.variant == "Err" or p.status == "diverge":
+            n_err += 1
+            F = _rel.Facts(p)
+            def is_mismatch(a, b):
+                sa, sb = _rel.cstr(a), _rel.cstr(b)
+                return re.match(r"^[\w:<>, ]+::len\(nodes\)$", sa) is not None and re.match(r"^binop:Add\([\w:<>, ]+::len\(\.ops\(bin_ops\)\), 1_usize\)$", sb) is not None
+            mismatch = any(op == "!=" and (is_mismatch(a, b) or is_mismatch(b, a)) for a, op, b in F.rel)
+            if not mismatch:
+                conds = [(_rel.cstr(d[1])[:70], d[2]) for d in p.decisions][-3:]
+                return False, "DeepEx::new can fail for another reason than #nodes != #operators + 1 (%s): its results are unwrapped" % conds
+    if n_err == 0:
+        return False, "no Err path of DeepEx::new seen"
+    return True, "DeepEx::new fails only on a node/operator count mismatch (%d error paths)" % n_err
+
+
 GUARDS = {
+    "str_index": g_str_index,
+    "new_total": g_new_total,
     "char_boundary_range": g_char_boundary_range,
     "none": g_none,
     "const_operands": g_const_operands,
